@@ -1,7 +1,7 @@
 """C11 — test entries carry the declared name, EXPECTFAIL flag and arguments (constructive oracle)."""
 from ..core import BaseProp, CaseResult, sig_hash
 from .. import runner, rstscan, oracle
-from ..modgen import Layout, render, expected_entries, Item
+from ..modgen import join_args, Layout, render, expected_entries, Item
 from ..genmod import Builder
 
 EXTRA = ["COMMAND", "exe", "${exe}", '"my exe"', "--x", "WORKING_DIRECTORY", "${CMAKE_BINARY_DIR}", "CONFIGURATIONS", "Debug",
@@ -16,6 +16,7 @@ FRAGMENT_NAMES = ["fail", "expect", "t", "x", "EXPECT", "pectf", "Fail", "e", "i
 
 class TBuilder(Builder):
     same_impl_variable = False
+    grouped = 0
 
     def add_test(self):
         r = self.rng
@@ -29,7 +30,18 @@ class TBuilder(Builder):
         pos = r.randint(0, len(rest))
         args = rest[:pos] + ["NAME", nm] + rest[pos:]
         self.name_positions.add(min(pos, 5))
-        return Item("add_test", "add_test", args, uid, doc=self.doc(uid), name=nm, rest=rest)
+        groups = None
+        if r.random() < 0.2:
+            # a parenthesised group among the arguments, before or after NAME (valid CMake: the parentheses reach the command
+            # as arguments). Whether the entry shows the group is not asserted; the plain arguments, NAME and the name are.
+            groups = list(args)
+            for _ in range(r.choice([1, 1, 2])):
+                g = [r.choice(["echo", "hi", "a", "NAME", nm, "x"]) for _ in range(r.randint(0, 3))]
+                gp = r.choice([q for q in range(len(groups) + 1) if not (q > 0 and groups[q - 1] == "NAME")])
+                groups.insert(gp, g)
+            args = groups
+            self.grouped += 1
+        return Item("add_test", "add_test", args, uid, doc=self.doc(uid), name=nm, rest=rest, grouped=groups)
 
     def ct_test(self, depth, section=False):
         r = self.rng
@@ -126,12 +138,21 @@ class Prop(BaseProp):
         obs_t = [(k, n) for k, n in obs if k in ("ctest", "test", "section")]
         # sequence of test-like entries = source order
         want_seq = [(e.kind, e.name) for e in tgt]
-        got_seq = [(k, n.arg[:n.arg.rindex("(")] if "(" in n.arg else n.arg) for k, n in obs_t]
+        got_seq = [(k, n.arg[:n.arg.index("(")] if "(" in n.arg else n.arg) for k, n in obs_t]      # (no generated name has a parenthesis; signatures may)
         if want_seq != got_seq:
             res.violate("test-entry-sequence", f"expected {want_seq}, got {got_seq}", wit)
         else:
             for e, (k, n) in zip(tgt, obs_t):
                 want = f"{e.name}({e.sig})"
+                grouped = e.item.gt.get("grouped") if e.kind == "ctest" else None
+                if grouped:
+                    # groups: accepted as dropped (what the pinned code does) or rendered '(a b)' in place, like generic commands
+                    res.count("add_test_with_parenthesised_group")
+                    k_name = next(i for i, a in enumerate(grouped) if a == "NAME")      # (no bare NAME in EXTRA)
+                    others = grouped[:k_name] + grouped[k_name + 2:]
+                    shown = " ".join("(" + " ".join(a) + ")" if isinstance(a, list) else a for a in others)
+                    if n.arg == f"{e.name}({shown})":
+                        want = n.arg
                 if e.kind == "ctest":
                     res.count("ctest_checked")
                 else:
@@ -145,7 +166,7 @@ class Prop(BaseProp):
                             cls = "ctest-signature-drops-args-equal-to-name"
                     else:
                         cls = "expectfail-flag" if n.arg.startswith(e.name + "(") else "test-name"
-                    res.violate(cls, f"{e.item.cmd}({' '.join(e.item.args)}): heading {n.arg!r}, expected {want!r}", wit)
+                    res.violate(cls, f"{e.item.cmd}({join_args(e.item.args)}): heading {n.arg!r}, expected {want!r}", wit)
         if idx % 100 == 0:
             res.sample = {"text": text[:1000], "expected": [f"{e.kind}: {e.name}({e.sig})" for e in tgt][:6]}
         return res
